@@ -64,7 +64,7 @@ SQL_EXPRS = [
     # what the ORMs emit: REAL division (SQLAlchemy's div), NULL-coalescing concat (Django), nested trims, parameters
     '"a" / ("b" + 0.0)', '"a" / ("b" + 0.0) = 1', '("a" + 1) / (2 + 0.0) * "b" > 1', '"a" / ("b" + 0.0) + 1 <= "b"',
     '"a" / (2 + 0.0) - "b" / (3 + 0.0)', 'CAST("a" / ("b" + 0.0) AS INTEGER)', '("a" / ("b" + 0.0)) % 2', '- ("a" / (2 + 0.0))',
-    '7 / ("a" / ("b" + 0.0) + 0.0)', '"a" / ("b" + 0.0) = "b" / ("a" + 0.0)', '"a" + 0.0', '"a" * 1.5 > "b"',
+    '7 / ("a" / ("b" + 0.0) + 0.0)', 'SUBSTR("s", "a" / (2 + 0.0) + 1)', 'SUBSTR("s", 1, "a" / (2 + 0.0))', '"a" / (2 + 0.0) IN (1, "b")', '"a" / ("b" + 0.0) = "b" / ("a" + 0.0)', '"a" + 0.0', '"a" * 1.5 > "b"',
     "COALESCE(\"s\", '') || COALESCE(\"u\", '')", "(COALESCE(\"s\", '') || COALESCE('a', '')) = \"u\"", 'LTRIM(RTRIM("s"))',
     "(\"s\" LIKE \"u\" || '%') = 1", "1 = (\"s\" NOT LIKE '%' || \"u\")", "(\"s\" LIKE '%' || \"u\" || '%') = \"f\"",
     '(INSTR("s", "u") - 1) + 1 = "a"', 'SUBSTR("s", ("a" + 1), "b") = "u"', '("a" = 1) = ("b" = 2)', '"f" = ("a" = 1)',
